@@ -224,7 +224,7 @@ class _Env:
     def __init__(self, I): self.I = I
     def read(self): return iter([dict(i) for i in self.I])
 
-@obligation('C15','evaluator_seed', bounds="SequentialCB(seed in {0,1,3}) with a PMF-answering learner (symbolic PMF, 2 interactions x 3 actions): the drawn actions are the inverse-CDF members for CobaRandom(seed)'s uniforms, whatever experiment_seed the context store holds",
+@obligation('C15','evaluator_seed', bounds="SequentialCB(seed in {0,1,3}) with a PMF-answering learner given raw or already wrapped in a SafeLearner (symbolic PMF, 2 interactions x 3 actions): the drawn actions are the inverse-CDF members for CobaRandom(seed)'s uniforms, whatever experiment_seed the context store holds",
             functions=FUNCS+['coba.evaluators.sequential:SequentialCB.evaluate'], params=lambda tier: [dict(seed=s) for s in (0,1,3)])
 def evaluator_seed(sym, seed):
     store_seed = sym.choice('store', [None, 5, 9])
@@ -235,7 +235,10 @@ def evaluator_seed(sym, seed):
         acts = [10,11,12]
         env = _Env([{'context':None,'actions':list(acts),'rewards':[0,0,1]} for _ in range(2)])
         lrn = _PmfLearner(sym)
-        rows = list(SequentialCB(seed=seed).evaluate(env, lrn))
+        wrap = sym.choice('given_as', ['raw','safe','safe_used'])       # the learner may arrive already wrapped in a SafeLearner (with its own seed, possibly already used)
+        given = lrn if wrap == 'raw' else SafeLearner(lrn, 4)
+        if wrap == 'safe_used': given._rng.random()
+        rows = list(SequentialCB(seed=seed).evaluate(env, given))
     finally:
         CobaContext.store.clear(); CobaContext.store.update(old)
     ref = CobaRandom(seed)
